@@ -31,7 +31,7 @@ pub fn run(ctx: &Ctx, out: &mut Out) {
         // coinductive traits with unknowns can make the recursive solver diverge and abort the
         // process (F12, checked under C09 in a child process): for those programs only SLG is run here
         let coinductive = rng.chance(1, 4);
-        let mut pg = ProgGen { rng: &mut rng, cfg: ProgCfg { coinductive, ..ProgCfg::default() } };
+        let mut pg = ProgGen { rng: &mut rng, cfg: ProgCfg { coinductive, growing: false, ..ProgCfg::default() } };
         let prog = pg.program();
         let goals: Vec<String> = (0..6)
             .map(|k| if k < 4 { goal_text(&pg.exists_goal_from_impl(&prog)) } else { goal_text(&pg.exists_goal(&prog, 2)) })
@@ -129,6 +129,8 @@ pub fn run(ctx: &Ctx, out: &mut Out) {
                         &label,
                         &format!("{}_work_budget_exceeded@{}", name, if graph { graph_shape(&text, &gtext) } else { "" }),
                     ),
+                    // (the recursive solver's documented behaviour beyond its overflow depth; resource limits are C09's)
+                    Err(site) if name == "recursive" && site.contains("overflow depth reached") => out.count("recursive_overflow_panic"),
                     Err(site) => out.fail(&format!("{} solver panicked: {}", name, site), &label, "solver_panic"),
                     Ok(sol) => match answer_to_horn(&sol) {
                         None => out.count("answer_out_of_fragment"),
